@@ -13,6 +13,14 @@ COMMON_NOTE = ("Trusted: Lean 4.33 kernel (+ leanchecker in the thorough tier); 
 
 # id -> (technique, level text, design ref, extra note)
 CHECKS = {
+ "C01": ("Lean 4 theorem evalPath = specPath for every step evaluator and step count (induction over the step list) + field/wildcard/descendant characterisations + differential correspondence",
+         "Kernel-checked: the evaluator's path loop (transliterated from eval.go evalPath/evalPathStep/evalOver*) equals the fold the statement describes for any number of steps, any store-independent step semantics, any document; "
+         "normalisation, anchoring, one-level flattening with constructor exemption, field/*/** selection are theorems. The model is tied to /repo by running every generated path on both (exhaustive small paths x small documents, random paths with arrays nested in arrays).",
+         "DESIGN.md section 6 C01", ""),
+ "C02": ("Lean 4 theorem applyFilter = specFilter for all list lengths and positions (induction; omega for the index arithmetic) + positional/boolean corollaries + differential correspondence",
+         "Kernel-checked: the filter loop of eval.go applyFilter equals the specified filter for every length, every (negative, fractional, out-of-range) position and every predicate evaluator; "
+         "positional selection, boolean filtering, order preservation, normalisation and stacking are corollaries. Tied to /repo by the exhaustive lengths 0..5 x positions -7..7 step 0.5 set and random stacked predicates on every head kind.",
+         "DESIGN.md section 6 C02", ""),
  "C03": ("Lean 4 theorems (complete operator x kind x kind case analysis, range/conditional laws) over a hand-written model + regenerated facts + differential correspondence",
          "Kernel-checked theorems state the whole operator table (arithmetic, ordering, equality/in, boolean cast, concatenation, ranges, lazy conditional) for all operand values of the model; "
          "the model is tied to /repo on every run by regenerated facts (error enum, maxRangeItems) and by executing model and implementation on the exhaustive operator x kind x kind table, random IEEE bit patterns and random nestings.",
